@@ -31,6 +31,11 @@ class TallySegmentParser(DataParser):
     def tally_specification(self, p):
         if hasattr(p, "end_phrase"):
             text = p.end_phrase
+        elif hasattr(p, "end_phrase0"):
+            # both options (T and C): SLY numbers a symbol that occurs twice in one production
+            text = syntax_node.SyntaxNode(
+                "end phrases", {"first": p.end_phrase0, "second": p.end_phrase1}
+            )
         else:
             text = syntax_node.ValueNode(None, str)
 
